@@ -45,6 +45,8 @@ def _gen_params(rng, method, like=None):
             base = base + [n for n in names if n not in base][:1]
     else:
         base = names[: rng.choice([0, 1, 2, 2, 3])]
+    if like is not None and len(base) > 1 and rng.random() < 0.2:
+        rng.shuffle(base)  # stubs may list (keyword) parameters in another order: annotations go by name
     n_def = rng.randrange(len(base) + 1)
     params = [["self", None, False]] if method else []
     for i, n in enumerate(base):
